@@ -617,3 +617,187 @@ func FamNestedLink[T any](c Codec[T], seed int64) SysRecord {
 	rec.Events = w.Events()
 	return rec
 }
+
+// ---- C03: a handler is inside an invocation of a closure the peer passed when the link ends: that
+// invocation is a call in flight like any other and returns a non-nil error ----
+func FamClosureEnd[T any](c Codec[T], stream bool, chunk int, seed int64) SysRecord {
+	rec := SysRecord{Family: "closureend", Config: cfgName(c.Name, stream, chunk), Seed: seed}
+	p, err := newPair(c, stream, chunk, seed)
+	if err != nil {
+		rec.Notes = append(rec.Notes, err.Error())
+		return rec
+	}
+	ctx, cancel := context.WithTimeout(context.Background(), 20*time.Second)
+	defer cancel()
+	started, release := make(chan struct{}), make(chan struct{})
+	done := make(chan SysCall, 1)
+	go func() {
+		v, err := p.ra.KeepAndCall(ctx, 790, func(ctx context.Context, x int) (int, error) {
+			close(started)
+			<-release
+			return x, nil
+		})
+		done <- SysCall{Tag: 790, From: "A", Method: "CallWhoseClosureIsRunning", Ret: canon(v), Err: errText(err), Done: true}
+	}()
+	select {
+	case <-started:
+	case <-time.After(3 * time.Second):
+		rec.Notes = append(rec.Notes, "closure never started")
+	}
+	p.l.CloseTransport(errors.New("transport failed")) // no context is cancelled
+	if !waitUntil(func() bool { return hasRet(p.w, "KeepAndCall", 790) }, 4*time.Second) {
+		rec.Notes = append(rec.Notes, "the handler's closure invocation that was in flight when the link ended DID-NOT-RETURN")
+	}
+	select {
+	case cl := <-done:
+		rec.Calls = append(rec.Calls, cl)
+	case <-time.After(4 * time.Second):
+		rec.Calls = append(rec.Calls, SysCall{Tag: 790, From: "A", Method: "CallWhoseClosureIsRunning", Err: "DID-NOT-RETURN"})
+	}
+	close(release)
+	p.l.CancelA()
+	p.l.CancelB()
+	for _, e := range []chan error{p.l.ErrA, p.l.ErrB} {
+		select {
+		case <-e:
+		case <-time.After(4 * time.Second):
+			rec.Notes = append(rec.Notes, "a Link call did not return")
+		}
+	}
+	time.Sleep(2 * time.Millisecond)
+	rec.Events = p.w.Events()
+	return rec
+}
+
+// ---- C08: the same scripted history against the message API and the stream API ----
+// scenario 0: a malformed response ends the link, one more response arrives, then the application cancels and
+//             closes: Link returns, the disconnect notification fires, nothing stays enumerated
+// scenario 1: the lane requests are written to is blocked (back-pressure); requests of the peer are still answered
+func FamParity(seed int64, stream bool, scenario int) SysRecord {
+	rec := SysRecord{Family: fmt.Sprintf("parity%d", scenario), Config: map[bool]string{false: "json-raw/message", true: "json-raw/stream"}[stream], Seed: seed}
+	w := newWorld()
+	node := NewSysNode[json.RawMessage](w, "A")
+	c := jsonRawCodec()
+	ctx, cancel := context.WithCancel(context.Background())
+	defer cancel()
+	errc := make(chan error, 1)
+	resOut := make(chan string, 16)
+	blockReq := make(chan struct{}) // closed = request lane free
+	if scenario != 1 {
+		close(blockReq)
+	}
+	reqIn, resIn := newFailQ(), newFailQ()
+	hooks := &rpc.LinkHooks{OnClientDisconnect: func(id string) { w.log(SysEvent{Node: "A", Kind: "hook", Method: "link-disconnect"}) }}
+	if !stream {
+		go func() {
+			errc <- node.Reg.LinkMessage(ctx, func(b json.RawMessage) error { <-blockReq; return nil },
+				func(b json.RawMessage) error { resOut <- string(b); return nil }, reqIn.Get, resIn.Get, c.Marshal, c.Unmarshal, hooks)
+		}()
+	} else {
+		in := make(chan rpc.Message[json.RawMessage], 16)
+		go func() {
+			for {
+				select {
+				case f := <-reqIn.ch:
+					in <- rpc.Message[json.RawMessage]{Request: &f}
+				case f := <-resIn.ch:
+					in <- rpc.Message[json.RawMessage]{Response: &f}
+				case <-ctx.Done():
+					return
+				}
+			}
+		}()
+		enc := func(v rpc.Message[json.RawMessage]) error {
+			if v.Request != nil {
+				<-blockReq
+				return nil
+			}
+			resOut <- string(*v.Response)
+			return nil
+		}
+		dec := func(v *rpc.Message[json.RawMessage]) error {
+			select {
+			case m := <-in:
+				*v = m
+				return nil
+			case <-ctx.Done():
+				return ctx.Err()
+			}
+		}
+		go func() { errc <- node.Reg.LinkStream(ctx, enc, dec, c.Marshal, c.Unmarshal, hooks) }()
+	}
+	if !WaitRemotes(node, 1) {
+		rec.Notes = append(rec.Notes, "link did not come up")
+		return rec
+	}
+	var rem sysRemote
+	for _, x := range node.Remotes() {
+		rem = x
+	}
+	add := func(m, ret string) { rec.Calls = append(rec.Calls, SysCall{Method: m, Ret: ret, Done: true}) }
+	if scenario == 0 {
+		resIn.ch <- json.RawMessage(`{"call":5,"value":1,"err":""}`) // malformed: the call id is not a string
+		time.Sleep(5 * time.Millisecond)
+		resIn.ch <- json.RawMessage(`{"call":"nobody","value":2,"err":""}`) // the peer keeps sending
+		time.Sleep(5 * time.Millisecond)
+		cancel()
+		select {
+		case reqIn.fail <- errors.New("closed"):
+		default:
+		}
+		select {
+		case resIn.fail <- errors.New("closed"):
+		default:
+		}
+		select {
+		case <-errc:
+			add("LinkReturn", "returned")
+		case <-time.After(3 * time.Second):
+			add("LinkReturn", "DID-NOT-RETURN")
+		}
+		gone := waitUntil(func() bool { return len(node.Remotes()) == 0 }, 3*time.Second)
+		add("RemoteRemovedAfterTheEnd", fmt.Sprint(gone))
+		time.Sleep(2 * time.Millisecond)
+		nd := 0
+		for _, e := range w.Events() {
+			if e.Kind == "hook" && e.Method == "link-disconnect" {
+				nd++
+			}
+		}
+		add("DisconnectNotifications", fmt.Sprint(nd))
+	} else {
+		// A's own call: its request write is stuck behind back-pressure
+		go func() {
+			cctx, ccancel := context.WithTimeout(ctx, 4*time.Second)
+			defer ccancel()
+			rem.EchoInt(cctx, 795, 1)
+		}()
+		time.Sleep(5 * time.Millisecond)
+		// the peer calls A meanwhile
+		reqIn.ch <- json.RawMessage(`{"call":"b1","function":"EchoInt","args":[796,6]}`)
+		select {
+		case f := <-resOut:
+			var d map[string]any
+			json.Unmarshal([]byte(f), &d)
+			add("PeerRequestWhileRequestLaneIsBlocked", canon(d["value"]))
+		case <-time.After(3 * time.Second):
+			add("PeerRequestWhileRequestLaneIsBlocked", "NO-ANSWER")
+		}
+		close(blockReq)
+		cancel()
+		select {
+		case reqIn.fail <- errors.New("closed"):
+		default:
+		}
+		select {
+		case resIn.fail <- errors.New("closed"):
+		default:
+		}
+		select {
+		case <-errc:
+		case <-time.After(3 * time.Second):
+			rec.Notes = append(rec.Notes, "link did not return")
+		}
+	}
+	return rec
+}
